@@ -1,6 +1,18 @@
-(* PARKED (round 3): discharging dec_sound for pname_dec from C01.Proofs.parse_ref_sound.
-   The statements are right and the tactic proofs go through, but Qed does not return: the kernel
-   unfolds parse_labels PARSE_FUEL when converting decode_name / bind.  Needs an opaque wrapper. *)
+(* C05 ProofsJ.v -- the message name reader is sound (imported from C01), so
+   the re-compose theorem for RDATA accepted from a message -- embedded names
+   possibly compressed -- needs no hypothesis about the reader. *)
+From Coq Require Import Arith NArith List Bool Lia ZArith.
+From Coq Require Import ZifyN ZifyBool ZifyNat.
+From DV Require Import Base.Outcome Base.Bytes Base.Names Base.PName
+  C05.Schema C05.Gen C05.Model C05.ProofsA C05.ProofsB C05.ProofsC C05.ProofsD C05.Proofs.
+From DV Require C01.Proofs.
+Import ListNotations.
+Local Open Scope N_scope.
+Ltac Zify.zify_post_hook ::= Z.div_mod_to_equations.
+(* the kernel must not unfold the 300 rounds of fuel of the name reader when it
+   compares decode_name with its body *)
+#[local] Strategy opaque [parse_ref pname_labels parse_labels iter_labels].
+
 (* ---- the message name reader is sound (C01): what it returns is a valid name.
    dec_sound with the bound on lim that C01's theorem needs. *)
 Definition dec_sound_in (dec : decoder) : Prop :=
